@@ -21,6 +21,7 @@ from props import ren_common as rc
 GROUP = 'ren'
 TRUSTED = ['the recorded answers of rset_find (configured dirmarks/dircontexts) are replayed to the model as its matcher oracle; that they are in bounds and non-empty is checked on every recorded answer',
            "Python's unicodedata.decomposition as the independent reference for 'a presentation form of the same letter'",
+           "Python's re as the independent matcher of the reference order on lines with marks (generated ERE patterns translated by ere_to_py)",
            'tools/props/ren_common.py parses the generated Coq tables for the Python oracle']
 
 NL = 10
@@ -60,6 +61,17 @@ class Spec:
         self.cr2l, self.cneut = parse_sets(t)
         self.rows = {a[0]: a for a in t['achars']}
         self.ok = self.cr2l is not None and self.cneut is not None
+        import re
+        self.marks_py = []
+        for mctx, mdir, grp, pat in t['dirmarks']:
+            try:
+                py = ere_to_py(pat.decode('utf-8'))
+                self.marks_py.append((mctx, mdir, grp, re.compile(py, re.S)))
+            except Exception:
+                py = None
+            if py is None:
+                self.marks_py = None
+                break
 
     @staticmethod
     def alnum(c):
@@ -176,6 +188,98 @@ def check_table(res, sp):
                                'input': ['fasweep'], 'expected': '%s %04X' % (want[k], c), 'observed': ' '.join(d)})
 
 
+def ere_to_py(pat):
+    """the ERE syntax of regex.c for the constructs the configured marks use -> Python re (None if unknown)"""
+    import re
+    out = []
+    i = 0
+    while i < len(pat):
+        c = pat[i]
+        if c == '[':
+            j = i + 1
+            neg = False
+            if j < len(pat) and pat[j] == '^':
+                neg = True
+                j += 1
+            items = []
+            first = True
+            while j < len(pat) and (pat[j] != ']' or first):
+                if pat[j] == '[' and j + 1 < len(pat) and pat[j + 1] in ':=':
+                    return None
+                items.append(pat[j])
+                j += 1
+                first = False
+            if j >= len(pat):
+                return None
+            cls = ''
+            k = 0
+            while k < len(items):
+                if k + 2 < len(items) and items[k + 1] == '-':
+                    cls += re.escape(items[k]) + '-' + re.escape(items[k + 2])
+                    k += 3
+                else:
+                    cls += re.escape(items[k])
+                    k += 1
+            out.append('[' + ('^' if neg else '') + cls + ']')
+            i = j + 1
+        elif c == '\\':
+            if i + 1 >= len(pat) or pat[i + 1] in '<>':
+                return None
+            out.append(re.escape(pat[i + 1]))
+            i += 2
+        elif c in '^$.':
+            return None
+        else:
+            out.append(c)
+            i += 1
+    return ''.join(out)
+
+
+def reference_order(sp, cs, ctx):
+    """The mechanism the property names, with Python's regex engine as the matcher: match the
+    configured marks left to right (leftmost, earlier mark first), reverse the matched span in a
+    right-to-left context and the group span of a right-to-left mark, recurse into a nested group
+    (restricted to the group) in the mark's direction.  None if a pattern cannot be translated."""
+    import re
+    if sp.marks_py is None:
+        return None
+    n = len(cs)
+    if n and cs[-1] == NL:
+        n -= 1
+    s = ''.join(chr(c) for c in cs)
+    ord_ = list(range(len(cs)))
+
+    def fix(dirn, beg, end, depth):
+        guard = 0
+        while beg < end and guard < 200 and depth < 50:
+            guard += 1
+            best = None
+            for mctx, mdir, grp, rx in sp.marks_py:
+                if (dirn < 0 and mctx <= 0) or (dirn >= 0 and mctx >= 0):
+                    m = rx.search(s[beg:end])
+                    if m and (best is None or m.start() < best[0].start()):
+                        best = (m, mdir, grp)
+            if best is None:
+                return
+            m, mdir, grp = best
+            rb, re_ = beg + m.start(), beg + m.end()
+            cb = beg + m.start(grp) if m.start(grp) >= 0 else rb
+            ce = beg + m.end(grp) if m.end(grp) >= 0 else re_
+            if re_ <= beg:
+                return
+            if dirn < 0:
+                ord_[rb:re_] = ord_[rb:re_][::-1]
+            if mdir < 0:
+                ord_[cb:ce] = ord_[cb:ce][::-1]
+            if cb == rb:
+                cb += 1
+            if grp > 0:
+                fix(mdir, cb, ce, depth + 1)
+            beg = re_
+    fix(ctx, 0, n, 0)
+    return ord_
+
+
 def req(cs, opt):
     b = rc.enc(cs) if not isinstance(cs, (bytes, bytearray)) else bytes(cs)
     return 'ren %s %d %d %d' % (vlib.hx(b), opt[0], opt[1], opt[2])
@@ -192,7 +296,60 @@ def oracle_dir(sp, cs, td, o):
     if int(o['dctx']) != ctx:
         return ('base direction %s, expected %d (option, else first character)' % (o['dctx'], ctx), ctx, o['dctx'])
     body = cs[:-1] if n and cs[-1] == NL else cs
+    nb = len(body)
+    # ---- structure of the permutation, also on lines with marks.  Every reordering step reverses a
+    # matched span in place, so the order decomposes into minimal blocks of consecutive positions
+    # that are mapped onto themselves; everything outside a block of length >= 2 keeps its place.
+    blocks = []
+    b, mx = 0, -1
+    for i in range(nb):
+        mx = max(mx, ord_[i])
+        if mx == i:
+            if i + 1 - b >= 2:
+                blocks.append((b, i + 1))
+            b = i + 1
+    if ctx > 0:
+        # left-to-right line (also inside nested groups, whose direction is left-to-right): the only
+        # spans ever reversed are runs of right-to-left letters with neutrals inside, pairwise
+        # disjoint -- each block is one such run, reversed in place, letters at both ends
+        for b, e in blocks:
+            seg = body[b:e]
+            if [ord_[i] for i in range(b, e)] != list(range(e - 1, b - 1, -1)):
+                return ('left-to-right line: positions %d..%d are permuted among themselves but not as one run reversed in place: %s'
+                        % (b, e - 1, ord_[b:e]), list(range(e - 1, b - 1, -1)), ord_[b:e])
+            if not (seg[0] in sp.cr2l and seg[-1] in sp.cr2l and all(c in sp.cr2l or c in sp.cneut for c in seg)):
+                return ('left-to-right line: the reversed span %d..%d is not a run of right-to-left letters with neutrals inside (%s)'
+                        % (b, e - 1, ' '.join('U+%04X' % c for c in seg)), 'a run of right-to-left letters', ord_[b:e])
+    else:
+        # right-to-left line: a moved block is a matched mark: it starts at a Latin letter/digit/underscore
+        # (Latin run), a backslash or a dollar (the other marks), and never at a right-to-left letter
+        for b, e in blocks:
+            seg = body[b:e]
+            if not (sp.alnum(seg[0]) or seg[0] in (0x5c, 0x24)):
+                return ('right-to-left line: positions %d..%d were reordered (%s) but no mark or Latin run starts at U+%04X'
+                        % (b, e - 1, ord_[b:e], seg[0]), list(range(b, e)), ord_[b:e])
+            if sp.alnum(seg[0]) and not sp.has_marks(seg) and not sp.alnum(seg[-1]):
+                return ('right-to-left line: the reordered Latin run %d..%d does not end in a Latin letter or digit' % (b, e - 1), list(range(b, e)), ord_[b:e])
+    # the exact order on lines with marks: the mechanism with an independent matcher
+    if sp.has_marks(body) and nb <= 100:
+        want = reference_order(sp, cs, ctx)
+        if want is not None and want != ord_:
+            return ('the marks of the line, matched left to right and reversed / entered as configured, give the order %s' % want, want, ord_)
+    # completeness before the first mark character: a run that ends before any `\` or `$` is reversed
+    firstmark = min([i for i, c in enumerate(body) if c in (0x5c, 0x24)] + [nb])
     if sp.has_marks(body):
+        want = list(range(n))
+        for b, e in sp.runs(body[:firstmark], ctx):
+            # the run must be maximal inside the full line as well (not continued through the mark character)
+            if e < firstmark or firstmark == nb:
+                full = [r for r in sp.runs(cs, ctx) if r[0] == b]
+                if full and full[0] == (b, e):
+                    for i in range(b, e):
+                        want[i] = b + e - 1 - i
+        for i in range(firstmark):
+            if want[i] != i and ord_[i] != want[i]:
+                return ('the run of opposite-direction letters before the first mark must be reversed in place: position %d is %d, expected %d'
+                        % (i, ord_[i], want[i]), want[:firstmark], ord_[:firstmark])
         return None
     want = list(range(n))
     for b, e in sp.runs(cs, ctx):
@@ -253,6 +410,9 @@ def gen_lines(ctx):
         [0x20, 0x627, 0x628], [0x2d, 0x61, 0x62], [0x31, 0x627, 0x628, 0x20, 0x32], [0x627, 0x9, 0x628, 0x20, 0x62a],
         S("a'b") + [0x627], [0x627] + S("ab'cd e`f") + [0x628],
         [0x5d0, 0x5d1, 0x20, 0x61], [0xfe8e, 0xfe91, 0x20, 0x62],
+        S('\\f{') + [0x627, 0x628] + S('} ') + [0x62a, 0x62b] + S(' z\n'), [0x633, 0x20] + S('\\*[ab] ') + [0x62a, 0x62b, NL],
+        S('\\*[') + [0x627, 0x628] + S('] ') + [0x62a, 0x62b, NL], [0x633, 0x20] + S('\\f{ab} ') + [0x62a, 0x62b] + S(' cd\n'),
+        S('x \\*[a') + [0x627, 0x628] + S('] ') + [0x62a, 0x20, 0x62b] + S(' \\g{') + [0x644, 0x645] + S('}') + [0x646, 0x647, NL],
     ]
     cases = []
     for cs in fixed:
@@ -286,6 +446,8 @@ def gen_lines(ctx):
                         cs += S('$') + inner + S('$')
                     elif m == 2:
                         cs += S('\\') + [rng.choice(L) for _k in range(rng.range(1, 3))] + S('{') + inner + S('}')
+                    if m in (0, 2) and rng.chance(1, 2):       # a nested mark followed by right-to-left text
+                        cs += [0x20, rng.choice(A), rng.choice(A)]
                     elif m == 3:
                         cs += S('\\') + [rng.choice(L + DIGIT) for _k in range(rng.range(0, 3))]
                     else:
